@@ -72,7 +72,8 @@ def cases(tier, seed):
             for state in ("absent", "empty"):
                 yield {"k": "loc", "req": req, "cwd": cwd, "vcs": vcs, "state": state, "rootopt": rootopt, "fail": None, "rootname": "LICENSES"}
     for variant in ("output-new", "output-existing", "output-two-ids", "source-file", "source-dir", "source-missing", "source-dir-missing-file",
-                    "source-existing-target", "all", "all-with-failure", "all-nothing-missing", "all-plus-id", "no-arguments"):
+                    "source-existing-target", "all", "all-with-failure", "all-nothing-missing", "all-plus-id", "no-arguments",
+                    "non-ascii-identifier", "all-with-non-ascii-identifier", "other-extension-present", "text-in-subdirectory-present"):
         for fail in (None, "http500"):
             yield {"k": "opt", "variant": variant, "fail": fail}
     cmds = [["MIT"], ["MIT+"], ["GPL-2.0+"], ["LicenseRef-x.1"], ["MIT", "Classpath-exception-2.0"], ["--all"]]
@@ -264,6 +265,19 @@ def ev_opt(c) -> R:
     elif v == "all-plus-id":
         argv = ["download", "--all", "MIT"]
         fail = True
+    elif v == "non-ascii-identifier":
+        argv = ["download", "M\u00eft", "MIT"]
+        expect_new = {"LICENSES/MIT.txt": b"text of MIT\n"}
+        fail, req_net = True, ["M\u00eft", "MIT"]
+    elif v == "all-with-non-ascii-identifier":
+        rec["src/umlaut.py"] = H + "# SPDX-License-Identifier: 0BSD OR LicenseRef-Gesch\u00e4ft\n"
+        argv = ["download", "--all"]
+        fail = None
+    elif v in ("other-extension-present", "text-in-subdirectory-present"):
+        # the project already provides MIT, only not as LICENSES/MIT.txt
+        rec["LICENSES/MIT.md" if v == "other-extension-present" else "LICENSES/third-party/MIT.txt"] = SENTINEL
+        argv = ["download", "MIT"]
+        fail = None
     elif v == "no-arguments":
         argv = ["download"]
         fail = None
@@ -282,6 +296,16 @@ def ev_opt(c) -> R:
     after = read_tree(root)
     label = f"{' '.join(a if not a.startswith(str(base)) else os.path.relpath(a, base) for a in argv)} (network {assign or 'ok'})"
     sig = f"opt|{v}|{c['fail']}"
+    if v == "all-with-non-ascii-identifier":
+        # the odd identifier cannot be fetched; everything else that is missing must be there afterwards
+        for p in ("LICENSES/MIT.txt", "LICENSES/GPL-2.0.txt", "LICENSES/0BSD.txt", "LICENSES/LicenseRef-x.1.txt"):
+            if p not in after:
+                r.violation(f"not-downloaded|{sig}", f"{label}: {p} was not written; stdout {out.stdout[-300:]!r}")
+        if out.exc is not None:
+            r.violation(f"crash|{sig}|{out.exc}", f"{label}: unhandled {out.exc_repr}")
+        r.outcome = f"opt-exit{min(out.exit_code, 2)}"
+        r.tags.append("opt")
+        return r
     judge(r, label, sig, root, before, after, out, urls, expect_new, fail, req_net)
     for p in expect_new:
         if p not in after:
@@ -292,6 +316,14 @@ def ev_opt(c) -> R:
         miss = json.loads(lint.stdout)["non_compliant"]["missing_licenses"]
         if miss:
             r.violation(f"all-leaves-missing|{sig}", f"{label}: exit 0 but lint still reports missing licences {sorted(miss)}")
+    if out.exc is not None:
+        r.violation(f"crash|{sig}|{out.exc}", f"{label}: unhandled {out.exc_repr}")
+    if v in ("other-extension-present", "text-in-subdirectory-present"):
+        # whatever download answers, the project must still load afterwards (two texts for one identifier are a configuration error)
+        with virtual_pool({"chunksize": 1000}):
+            lint = run_cli(["--root", str(root), "--no-multiprocessing", "lint", "--json"])
+        if lint.exit_code == 2:
+            r.violation(f"download-breaks-project|{v}", f"{label}: exit {out.exit_code}; afterwards every command stops with {lint.stderr[-200:]!r}")
     r.outcome = f"opt-exit{min(out.exit_code, 2)}"
     r.tags.append("opt")
     return r
